@@ -604,3 +604,10 @@ from .C02 import AsyncScope as _AsyncScope, SyncScope as _SyncScope, variant as 
 # scope again, however the block was left
 _c09 = lambda n: n.startswith("C09-") or "MetricsContext-variable-is-what-it-was" in n      # noqa: E731
 CONTRACTS = CONTRACTS + [_variant(_AsyncScope, "C09", _c09), _variant(_SyncScope, "C09", _c09)]
+
+# "... every scope nested under it (including those running in spawned or inherited-context tasks)": a task spawned inside a
+# scope - also while that scope is already waiting for its tasks - belongs to the scope's task group (the scope is left only
+# after it), and it starts from a snapshot of the spawn point's context, so the scopes it enters register under that scope
+from .C06 import Run as _Run, Spawn as _Spawn      # noqa: E402
+_c09s = ("C06-P1:inside-a-scope-the-task-belongs-to-the-current-task-group", "C06-P1:spawning-fails-only", "C03-P1")
+CONTRACTS = CONTRACTS + [_variant(_Run, "C09", _c09s), _variant(_Spawn, "C09", _c09s)]
